@@ -13,8 +13,10 @@ import (
 	"strings"
 	"time"
 
+	api "k8s.io/api/core/v1"
 	networking "k8s.io/api/networking/v1"
 	metav1 "k8s.io/apimachinery/pkg/apis/meta/v1"
+	"k8s.io/apimachinery/pkg/util/intstr"
 
 	"github.com/jcmoraisjr/haproxy-ingress/pkg/converters"
 	conv_helper "github.com/jcmoraisjr/haproxy-ingress/pkg/converters/helper_test"
@@ -149,6 +151,24 @@ func (p *Pipe) AddService(name, port, endpoints string, ann map[string]string) {
 	if ann != nil {
 		svc.SetAnnotations(ann)
 	}
+	p.Cache.SvcList = append(p.Cache.SvcList, svc)
+	p.Cache.EpList[name] = ep
+}
+
+// AddServicePorts registers a service "ns/name" exposing several numeric ports (named
+// p<port>, targetPort = port) with one endpoint address.
+func (p *Pipe) AddServicePorts(name string, ports []int, ip string) {
+	f := strings.SplitN(name, "/", 2)
+	svc := &api.Service{ObjectMeta: metav1.ObjectMeta{Namespace: f[0], Name: f[1]}}
+	ep := &api.Endpoints{ObjectMeta: metav1.ObjectMeta{Namespace: f[0], Name: f[1]}}
+	sub := api.EndpointSubset{Addresses: []api.EndpointAddress{{IP: ip,
+		TargetRef: &api.ObjectReference{Kind: "Pod", Name: f[1] + "-xxxxx", Namespace: f[0]}}}}
+	for _, pn := range ports {
+		n := fmt.Sprintf("p%d", pn)
+		svc.Spec.Ports = append(svc.Spec.Ports, api.ServicePort{Name: n, Port: int32(pn), TargetPort: intstr.FromInt(pn)})
+		sub.Ports = append(sub.Ports, api.EndpointPort{Name: n, Port: int32(pn), Protocol: api.ProtocolTCP})
+	}
+	ep.Subsets = []api.EndpointSubset{sub}
 	p.Cache.SvcList = append(p.Cache.SvcList, svc)
 	p.Cache.EpList[name] = ep
 }
